@@ -133,6 +133,40 @@ AlsStimuli ==
      rk \in {2, 0}, d \in {<<0, 1, 2>>, <<2, 0, 1>>, <<0, 1>>, <<0, 0, 1>>, <<0, 1, 3>>},
      ir \in {<<2, 3, 2>>, <<2, 3, 3>>, <<3, 2, 2>>}, ic \in {2, 3}}
 
+\* ---- families added after the third seeding round (side observations on the unchanged tree)
+ArrangeStimuli ==
+  {St("k_arrange_perm", [R |-> 3, perm |-> p], w) :
+     p \in {<<2, 0, 1>>, <<0, 1, 2>>}, w \in {"ok"}}
+  \cup {St("k_arrange_perm", [R |-> 3, perm |-> <<0, 0, 1>>], "distinct"), St("k_arrange_perm", [R |-> 3, perm |-> <<2, 2, 2>>], "distinct"),
+        St("k_arrange_perm", [R |-> 3, perm |-> <<0, 1, 3>>], "in_range"), St("k_arrange_perm", [R |-> 3, perm |-> <<0, 1, 0 - 1>>], "in_range"),
+        St("k_arrange_perm", [R |-> 3, perm |-> <<0, 1>>], "length"), St("k_arrange_perm", [R |-> 3, perm |-> <<0, 1, 2, 0>>], "?")}
+UpdateStimuli ==
+  LET rows == <<2, 3, 2>> IN
+  {St("k_update", [rows |-> rows, R |-> 2, modes |-> m, datalen |-> SumSeq([k \in 1..Len(m) |-> rows[m[k] + 1] * 2])], "ok") :
+     m \in {<<0>>, <<1>>, <<0, 1>>, <<0, 1, 2>>}}
+  \cup {St("k_update", [rows |-> rows, R |-> 2, modes |-> m, datalen |-> SumSeq([k \in 1..Len(m) |-> rows[m[k] + 1] * 2]) + d], "data_length") :
+          m \in {<<0>>, <<0, 1>>, <<1, 2>>}, d \in {0 - 1, 0 - 4}}
+  \cup {St("k_update", [rows |-> rows, R |-> 2, modes |-> <<0, 1>>, datalen |-> 11], "ok")}
+  \cup {St("k_update", [rows |-> rows, R |-> 2, modes |-> <<m>>, datalen |-> 4], "modes_in_range") : m \in {3, 0 - 2, 5}}
+SpReshapeStimuli ==
+  {St("sp_reshape_modes", [shape |-> <<2, 3, 2>>, old_modes |-> <<1, 2>>, target |-> t], IF Prod(t) = 6 THEN "ok" ELSE "count") :
+     t \in {<<6>>, <<3, 2>>, <<5>>, <<2, 2>>, <<7, 1>>}}
+  \cup {St("sp_reshape_modes", [shape |-> <<2, 3, 2>>, old_modes |-> m, target |-> <<2, 1>>], w[2]) :
+          m \in {<<0 - 1>>}, w \in {<<0, "modes_in_range">>}}
+  \cup {St("sp_reshape_modes", [shape |-> <<2, 3, 2>>, old_modes |-> <<3>>, target |-> <<2>>], "modes_in_range"),
+        St("sp_reshape_modes", [shape |-> <<2, 3, 2>>, old_modes |-> <<0, 0>>, target |-> <<4>>], "?")}
+CtorTenmatStimuli ==
+  {St("ctor_tenmat", [shape |-> <<2, 2, 2>>, rdims |-> <<0>>, cdims |-> <<1, 2>>, mshape |-> ms], IF ms = <<2, 4>> THEN "ok" ELSE "matrix_shape") :
+     ms \in {<<2, 4>>, <<4, 2>>, <<8, 1>>, <<1, 8>>}}
+  \cup {St("ctor_tenmat", [shape |-> <<2, 3>>, rdims |-> <<1>>, cdims |-> <<0>>, mshape |-> ms], IF ms = <<3, 2>> THEN "ok" ELSE "matrix_shape") :
+          ms \in {<<3, 2>>, <<2, 3>>, <<6, 1>>}}
+CtorSptenmatStimuli ==
+  {St("ctor_sptenmat", [shape |-> <<2, 3, 2>>, rdims |-> <<0>>, cdims |-> <<1, 2>>, maxrow |-> r, maxcol |-> c],
+      IF r < 2 /\ c < 6 THEN "ok" ELSE IF r >= 2 /\ c >= 6 THEN "?" ELSE IF r >= 2 THEN "rows_inside" ELSE "cols_inside") :
+     r \in {1, 2, 3}, c \in {5, 6, 7}}
+CtorSpNegStimuli ==
+  {St("ctor_sptensor_neg", [shape |-> s, minsub |-> m], IF m >= 0 THEN "ok" ELSE "nonneg") : s \in {<<2, 3>>, <<2, 3, 2>>}, m \in {0, 0 - 1, 0 - 2}}
+
 All ==
   (IF "ttv" \in Fams THEN TtvStimuli ELSE {}) \cup (IF "ttm" \in Fams THEN TtmStimuli ELSE {})
   \cup (IF "mttkrp" \in Fams THEN {x \in MttkrpStimuli : MttkrpOk(x)} ELSE {})
@@ -140,6 +174,8 @@ All ==
   \cup (IF "misc" \in Fams THEN ReshapeStimuli \cup SameShapeStimuli \cup ContractStimuli \cup ScaleStimuli
                                \cup CollapseStimuli \cup TenmatStimuli \cup CtorStimuli \cup MatStimuli \cup AlsStimuli
         ELSE {})
+  \cup (IF "more" \in Fams THEN ArrangeStimuli \cup UpdateStimuli \cup SpReshapeStimuli \cup CtorTenmatStimuli
+                               \cup CtorSptenmatStimuli \cup CtorSpNegStimuli ELSE {})
 
 \* keep the well-formed requests and those violating exactly one clause
 \* keep the well-formed requests and those violating at most two clauses (single-clause violations
